@@ -104,10 +104,18 @@ func (c *conn) serve() error {
 	// responses (which are to be sent to the client)
 	// It prevents the requirement for a mutex on tags.
 
+	// one per request goroutine started below
+	var handlers sync.WaitGroup
+
 	defer func() {
 		for _, active := range tags {
 			active.cancel()
 		}
+		// Every request's context is cancelled now (flushed ones were
+		// cancelled earlier). Wait for the handler calls still in flight:
+		// ServeConn runs handler.Stop as soon as serve returns, and Stop
+		// must not race with an operation that is still using the session.
+		handlers.Wait()
 	}()
 
 	// read loop
@@ -159,7 +167,10 @@ func (c *conn) serve() error {
 					cancel:  cancel,
 				}
 
+				handlers.Add(1)
 				go func(ctx context.Context, req *Fcall) {
+					defer handlers.Done()
+
 					var resp *Fcall
 					msg, err := c.handler.Handle(ctx, req.Message)
 					if err != nil {
